@@ -7,7 +7,8 @@ import (
 
 // Bounds of one exploration.
 type Bounds struct {
-	P        int           // max preemptions
+	Delay    bool          // delay bounding: every non-default scheduling choice costs 1 (not only preemptions)
+	P        int           // max preemptions (or deviations from the default scheduler when Delay is set)
 	D        int           // max environment deviations
 	MaxExecs int           // 0 = unlimited; if hit the result is not exhaustive
 	Deadline time.Time     // zero = none; if hit the result is not exhaustive
@@ -62,11 +63,11 @@ type Violation struct {
 	Choices []Choice
 }
 
-func cost(cs []Choice) (p, d int) {
+func cost(cs []Choice, delay bool) (p, d int) {
 	for _, c := range cs {
 		switch c.Kind {
 		case CSched:
-			if c.CurEnabled && c.Picked != 0 {
+			if (c.CurEnabled || delay) && c.Picked != 0 {
 				p++
 			}
 		case CEnv:
@@ -138,14 +139,14 @@ func ExploreFrom(root []int, body func(), check Check, b Bounds) (*Stats, *Viola
 			continue
 		}
 		// children: alternatives at positions >= len(p)
-		cp, cd := cost(x.Choices[:min(len(p), len(x.Choices))])
+		cp, cd := cost(x.Choices[:min(len(p), len(x.Choices))], b.Delay)
 		for i := len(p); i < len(x.Choices); i++ {
 			c := x.Choices[i]
 			st.Nodes++
 			np, nd := cp, cd
 			switch c.Kind {
 			case CSched:
-				if c.CurEnabled {
+				if c.CurEnabled || b.Delay {
 					np++
 				}
 			case CEnv:
